@@ -290,6 +290,9 @@ def run(ctx):
                    f"adaptive_min_step is {T.show(ams)[:160] if ams else None}", disc="adaptive_min_step")
         ctx.decide(ep.heap.get((SELF, "adaptive")) == T.atom("adaptive"), "C06.opts", sample.ident, loc_of(sample), "the adaptive flag used by determine_beta is this call's option",
                    "determine_beta reads self.adaptive, which sample() does not set from its adaptive argument", disc="adaptive")
+    from .smcloop import forwarding_rule
+    forwarding_rule(ctx, "C06.opts", ("n_steps", "adaptive", "min_step", "max_n_steps"),
+                    "the requested schedule option (fixed step count, minimum step, step cap) is not honoured by that sampler")
     # ---- which option combinations make sample() raise: only "no n_steps and not adaptive" (data-validation raises aside)
     def _norm(c, pol):
         while c[0] == "not":
